@@ -190,6 +190,42 @@ def same_name_conditions(out):
     return n
 
 
+def operand_order_conditions(out):
+    """`a | b` / `b | a`, `a & b` / `b & a`, built one after the other in one process, both orders: operands are evaluated left
+    to right and an operand that raises fails the whole condition, so on values where one operand raises the two orders differ"""
+    import typing as t
+    import pane
+    from pane import annotations as A
+    n = 0
+
+    def verdict(ty, v):
+        try:
+            pane.from_data(v, ty)
+            return True
+        except pane.ConvertError:
+            return False
+    inner = t.Union[int, str]
+    # Positive raises on a str ('abc' > 0), NonEmpty raises on an int (len(5))
+    table = [
+        ('Positive | NonEmpty', lambda: A.Positive | A.NonEmpty, {5: True, -5: False, 'abc': False, '': False}),
+        ('NonEmpty | Positive', lambda: A.NonEmpty | A.Positive, {5: False, 'abc': True, '': False, -5: False}),
+        ('Positive & NonEmpty', lambda: A.Positive & A.NonEmpty, {5: False, 'abc': False}),
+        ('NonEmpty & Positive', lambda: A.NonEmpty & A.Positive, {5: False, 'abc': False}),
+    ]
+    with warnings.catch_warnings():
+        warnings.simplefilter('ignore')
+        for order in (table, table[::-1]):
+            built = [(label, mk(), want) for label, mk, want in order]
+            for label, cond, want in built:
+                for v, w in want.items():
+                    n += 1
+                    got = verdict(t.Annotated[inner, cond], v)
+                    if got != w:
+                        out.violation('C13:operand-order', f'{label} (built {"first" if built[0][0] == label else "after " + built[0][0]}) on {v!r}: '
+                                      f'{"accepted" if got else "rejected"}; evaluated left to right it {"holds" if w else "does not hold (an operand raises or is false)"}', {'condition': label, 'value': repr(v)})
+    return n
+
+
 def shape_conditions(out):
     """the stock conditions on a value's `shape` attribute: `shape(S)` holds exactly when value.shape equals S -- same rank, same
     extents -- alone and under ~ / & / |; `broadcastable(S)` on the cases where its reading is beyond doubt.  The values are
@@ -235,6 +271,7 @@ def shape_conditions(out):
 
 def run(ctx, out):
     out.evaluations += shape_conditions(out)
+    out.evaluations += operand_order_conditions(out)
     out.rule = ('(a) exhaustive boundary stream: every stock condition (sign conditions, finite, val_range, len_range, empty / '
                 'non-empty) x inner types x values at boundary -1/0/+1 (ints, floats, inf, nan, bool, 10**400), combinators '
                 'with raising members; (b) random condition expressions (and/or/not/all/any, raising and constant user '
